@@ -1,6 +1,7 @@
 package c09
 
 import (
+	"encoding/json"
 	"strings"
 	"fmt"
 	"os"
@@ -62,6 +63,14 @@ func TestClassProbe(t *testing.T) {
 	if ops := os.Getenv("C09_OPS"); ops != "" {
 		o := runOpsCase(OpsCase{Input: gen.SeqFromZSON(in), Ops: strings.Split(ops, " | ")})
 		fmt.Println("ops:", o.Labels, o.Known, o.Skip, o.Fail)
+	}
+	if j := os.Getenv("C09_EXPRJSON"); j != "" {
+		var e Ex
+		if err := json.Unmarshal([]byte(j), &e); err != nil {
+			t.Fatal(err)
+		}
+		o := runExprCase(ExprCase{Input: gen.SeqFromZSON(in), Expr: &e, Text: e.String()})
+		fmt.Println("expr:", e.String(), o.Labels, o.Known, o.Skip, o.Fail)
 	}
 	if f := os.Getenv("C09_HEXFIELD"); f != "" {
 		e := &Ex{Op: "call", Text: "hex", Args: []*Ex{fieldEx(f)}}
